@@ -49,12 +49,12 @@ decreasing_by omega
 def hex (n : Nat) : Bytes := (hexLE n).reverse
 
 def decVal (b : UInt8) : Option Nat :=
-  if 0x30 ≤ b ∧ b ≤ 0x39 then some (b.toNat - 48) else none
+  if 48 ≤ b.toNat ∧ b.toNat ≤ 57 then some (b.toNat - 48) else none
 
 def hexVal (b : UInt8) : Option Nat :=
-  if 0x30 ≤ b ∧ b ≤ 0x39 then some (b.toNat - 48)
-  else if 0x61 ≤ b ∧ b ≤ 0x66 then some (b.toNat - 87)
-  else if 0x41 ≤ b ∧ b ≤ 0x46 then some (b.toNat - 55)
+  if 48 ≤ b.toNat ∧ b.toNat ≤ 57 then some (b.toNat - 48)
+  else if 97 ≤ b.toNat ∧ b.toNat ≤ 102 then some (b.toNat - 87)
+  else if 65 ≤ b.toNat ∧ b.toNat ≤ 70 then some (b.toNat - 55)
   else none
 
 /-- big-endian digit string → number, starting from accumulator `acc` -/
@@ -116,7 +116,7 @@ def diff64 (prev cur : Nat) : Int :=
 
 /-- Go `%+d` -/
 def signedDec (i : Int) : Bytes :=
-  if i < 0 then 0x2d :: dec i.natAbs else 0x2b :: dec i.natAbs
+  if i < 0 then 0x2d :: dec (-i).toNat else 0x2b :: dec i.toNat
 
 /-- `callgrindAddress(prevInfo, curr)`; `prev = none` is `prevInfo == nil`. -/
 def cgAddr (prev : Option Nat) (cur : Nat) : Bytes :=
@@ -168,7 +168,7 @@ def wordsAux : Bytes → Bytes → List Bytes → List Bytes
 
 def words (s : Bytes) : List Bytes := wordsAux s [] []
 
-def isDigit (b : UInt8) : Bool := 0x30 ≤ b && b ≤ 0x39
+def isDigit (b : UInt8) : Bool := decide (48 ≤ b.toNat) && decide (b.toNat ≤ 57)
 
 abbrev Defs := List (Nat × Bytes)
 
